@@ -234,7 +234,8 @@ def run_C15(ctx):
             if f[k].startswith("stat ") and f[k + 1].startswith("resident"):
                 nchk += 1
                 cache = f[k][f[k].index("cache=") + 6:].split(" ")[0].split(",")
-                ev, items, _, size, _ = cache
+                ev, items, mx_, size, cap_ = cache
+                max_items, cap = int(mx_), int(cap_)       # limits in force (they change at a restart)
                 res = [x for x in f[k + 1][9:].split(",") if x]
                 cnt = len(res)
                 tot = sum(int(x.split(":")[2]) for x in res)
